@@ -57,13 +57,19 @@ bool Parser::parseTypeName(TypeNameSyntax*& typeName)
     return parseAbstractDeclarator(typeName->decltor_);
 }
 
-bool Parser::parseParenthesizedTypeNameOrExpression(TypeReferenceSyntax*& tyRef)
+bool Parser::parseParenthesizedTypeNameOrExpression(TypeReferenceSyntax*& tyRef,
+                                                    bool parensDelimitOperand)
 {
     switch (peek().kind()) {
         case SyntaxKind::OpenParenToken: {
             Backtracker BT(this);
             ExpressionSyntax* expr = nullptr;
-            if (parseExpressionWithPrecedenceUnary(expr)) {
+            // The parentheses of `_Alignas' and `typeof' are their own: the operand ends
+            // at the closing one (`int _Alignas(8) (*p)(int);'), while that of `sizeof'
+            // is a unary expression that may go on (`sizeof (a)[0]').
+            if (parensDelimitOperand
+                    ? parseParenthesizedExpression_AtFirst(expr)
+                    : parseExpressionWithPrecedenceUnary(expr)) {
                 auto exprAsTyRef = makeNode<ExpressionAsTypeReferenceSyntax>();
                 tyRef = exprAsTyRef;
                 exprAsTyRef->expr_ = expr;
